@@ -311,3 +311,117 @@ def gen_shape_map(rng, triples, n_items=None):
     if not items and iris:
         items.append("<%s>@<http://sh.org/S0>" % iris[0])
     return "\n".join(items)
+
+
+# ---------------------------------------------------------------------------
+# hash-seed independent serialisations (rdflib's serialisers follow its store's hash order)
+# ---------------------------------------------------------------------------
+
+def _split_iri(i):
+    k = max(i.rfind("#"), i.rfind("/"))
+    return i[:k + 1], i[k + 1:]
+
+
+def _prefix_table(triples):
+    nss = []
+    for s, p, o in triples:
+        for t in (s, p, o):
+            if t[0] == "i":
+                ns, _ = _split_iri(t[1])
+                if ns not in nss:
+                    nss.append(ns)
+            elif t[0] == "l" and t[2]:
+                ns, _ = _split_iri(t[2])
+                if ns not in nss:
+                    nss.append(ns)
+    return {ns: "n%d" % i for i, ns in enumerate(nss)}
+
+
+def _pname_ok(local):
+    import re
+    return re.match(r"^[A-Za-z][A-Za-z0-9_]*$", local) is not None
+
+
+def to_turtle(triples, group=True, use_a=True):
+    """Turtle with @prefix lines, prefixed names, 'a', ';' and ',' grouping."""
+    table = _prefix_table(triples)
+
+    def term(t, pred=False):
+        if t[0] == "i":
+            if pred and use_a and t[1] == RDF_TYPE:
+                return "a"
+            ns, local = _split_iri(t[1])
+            if _pname_ok(local):
+                return "%s:%s" % (table[ns], local)
+            return "<%s>" % t[1]
+        if t[0] == "b":
+            return t[1]
+        _, lex, dt, lang = t
+        if lang:
+            return '"%s"@%s' % (lex, lang)
+        if dt is None or dt == XSD + "string":
+            return '"%s"' % lex
+        ns, local = _split_iri(dt)
+        return '"%s"^^%s:%s' % (lex, table[ns], local)
+    out = ["@prefix %s: <%s> ." % (p, ns) for ns, p in table.items()]
+    out.append("")
+    if not group:
+        for s, p, o in triples:
+            out.append("%s %s %s ." % (term(s), term(p, True), term(o)))
+        return "\n".join(out) + "\n"
+    by_s = {}
+    for s, p, o in triples:
+        by_s.setdefault(s, {}).setdefault(p, []).append(o)
+    for s, pos in by_s.items():
+        parts = []
+        for p, objs in pos.items():
+            parts.append("%s %s" % (term(p, True), " , ".join(term(o) for o in objs)))
+        out.append("%s %s ." % (term(s), " ;\n    ".join(parts)))
+    return "\n".join(out) + "\n"
+
+
+def to_rdfxml(triples):
+    table = _prefix_table(triples)
+    table.setdefault(RDF_NS, "rdf")
+    rdfp = table[RDF_NS]
+    lines = ['<?xml version="1.0" encoding="utf-8"?>',
+             "<%s:RDF %s>" % (rdfp, " ".join('xmlns:%s="%s"' % (p, ns) for ns, p in table.items()))]
+    for s, p, o in triples:
+        about = '%s:about="%s"' % (rdfp, s[1]) if s[0] == "i" else '%s:nodeID="%s"' % (rdfp, s[1][2:])
+        ns, local = _split_iri(p[1])
+        q = "%s:%s" % (table[ns], local)
+        if o[0] == "i":
+            body = '<%s %s:resource="%s"/>' % (q, rdfp, o[1])
+        elif o[0] == "b":
+            body = '<%s %s:nodeID="%s"/>' % (q, rdfp, o[1][2:])
+        else:
+            _, lex, dt, lang = o
+            if lang:
+                body = '<%s xml:lang="%s">%s</%s>' % (q, lang, lex, q)
+            elif dt is None or dt == XSD + "string":
+                body = "<%s>%s</%s>" % (q, lex, q)
+            else:
+                body = '<%s %s:datatype="%s">%s</%s>' % (q, rdfp, dt, lex, q)
+        lines.append("  <%s:Description %s>%s</%s:Description>" % (rdfp, about, body, rdfp))
+    lines.append("</%s:RDF>" % rdfp)
+    return "\n".join(lines) + "\n"
+
+
+def to_jsonld(triples):
+    import json
+    nodes = {}
+    for s, p, o in triples:
+        sid = s[1]
+        n = nodes.setdefault(sid, {"@id": sid})
+        if o[0] in ("i", "b"):
+            v = {"@id": o[1]}
+        else:
+            _, lex, dt, lang = o
+            if lang:
+                v = {"@value": lex, "@language": lang}
+            elif dt is None or dt == XSD + "string":
+                v = {"@value": lex}
+            else:
+                v = {"@value": lex, "@type": dt}
+        n.setdefault(p[1], []).append(v)
+    return json.dumps(list(nodes.values()), indent=1)
